@@ -170,6 +170,9 @@ LOOSE_TIMES = ['%(d)sT%(t)s GMT', '%(d)sT%(t)s UTC', '%(y)d-%(m)d-%(dd)dT%(t)s',
                '%(dd)d %(mon)s %(y)d %(t)s', '%(d)sT%(t)s-5:00', 'Wed, %(dd)02d %(mon)s %(y)d %(t)s +0000']
 
 
+GARBAGE_TIMES = ['to be confirmed', 'TBC 12:30', '25:99', 'half past twelve-ish', '2020-13-45T99:99:99', '0']
+
+
 def loose_time(rng, day, clock):
     y, m, dd = (int(x) for x in day.split('-'))
     mon = ['Jan', 'Feb', 'Mar', 'Apr', 'May', 'Jun', 'Jul', 'Aug', 'Sep', 'Oct', 'Nov', 'Dec'][m - 1]
@@ -396,6 +399,10 @@ def rand_ro(rng, n_stories=None, meta_layout=None, pool=None, timing='any', ids=
             mm = rand_meta(rng, pool, used)
             if mm is not None:
                 entries.append(mm)
+    if ed_start == 'wild':
+        # C12 / C05 workloads only: a roEdStart that is not a time at all (the accessor properties claim
+        # parseable times; a merge must not depend on them)
+        ed_start = rng.choice(GARBAGE_TIMES) if rng.random() < 0.3 else 'auto'
     if ed_start == 'auto':
         r = rng.random()
         ed_start = ('2020-01-01T12:30:00' if r < 0.4 else '2020-01-01T12:30:15' if r < 0.5 else
